@@ -31,6 +31,8 @@ from hpstatic.terms import (sym, intern, show, subterms, calls_in, NONE, num, kw
 from hpstatic.xrnorm import atom_rewrite
 from . import c01
 
+MUTATION_TARGETS = {'holopy/core/io/io.py': ['pack_attrs', 'unpack_attrs', 'push', 'mean', 'std', 'load_average', 'save'], 'holopy/core/metadata.py': ['update_metadata', 'make_coords', 'data_grid', 'to_vector'], 'holopy/core/utils.py': ['updated']}
+
 LEVEL = 'other'
 META = dict(
     claimed=True,
